@@ -64,7 +64,8 @@ func (sd Sender[T]) Send(v T) {
 		return
 	}
 	if t.killed {
-		runtime.Goexit()
+		t.die()
+		return
 	}
 	c := sd.Case(v)
 	if sd.ch == nil {
@@ -73,6 +74,9 @@ func (sd Sender[T]) Send(v T) {
 	}
 	p := &pend{kind: opChan, cases: []chanCase{c}}
 	s.point(t, p)
+	if t.killed {
+		return
+	}
 	if p.committed < 0 {
 		c.perform(t, 0)
 		s.acc(t, c.cid, true)
@@ -241,7 +245,9 @@ func Recv2[T any](ch <-chan T) (T, bool) {
 		return v, ok
 	}
 	if t.killed {
-		runtime.Goexit()
+		t.die()
+		var z T
+		return z, false
 	}
 	c := RecvCase(ch)
 	if ch == nil {
@@ -251,6 +257,10 @@ func Recv2[T any](ch <-chan T) (T, bool) {
 	}
 	p := &pend{kind: opChan, cases: []chanCase{c}}
 	s.point(t, p)
+	if t.killed {
+		var z T
+		return z, false
+	}
 	if p.committed < 0 {
 		c.perform(t, 0)
 		s.acc(t, c.cid, true)
@@ -289,7 +299,8 @@ func Select(hasDefault bool, cases ...Case) int {
 		return realSelect(hasDefault, cases)
 	}
 	if t.killed {
-		runtime.Goexit()
+		t.die()
+		return -1
 	}
 	cs := make([]chanCase, len(cases))
 	for i, c := range cases {
@@ -301,6 +312,9 @@ func Select(hasDefault bool, cases ...Case) int {
 	}
 	p := &pend{kind: opChan, cases: cs, hasDef: hasDefault}
 	s.point(t, p)
+	if t.killed {
+		return -1
+	}
 	if p.committed >= 0 {
 		return p.committed
 	}
@@ -387,6 +401,13 @@ func (c *SCase[T]) tryReal() bool {
 func commitPartnerHash(t *thread) {
 	if p := s.lastPartner; p != nil {
 		s.lastPartner = nil
+		if race.on {
+			// a rendezvous synchronises both ways
+			p.vc = vjoin(p.vc, t.vc)
+			t.vc = vjoin(t.vc, p.vc)
+			t.tick()
+			p.tick()
+		}
 		if s.hbOn {
 			p.h = mix(p.h, t.h)
 		}
